@@ -575,21 +575,24 @@ class HeaderDecoder(Native):
         return SBytes(list(self.items))
 
 
-def session_roundtrip(pattern, nstages=1, header_mode="raw"):
+def session_roundtrip(pattern, nstages=1, header_mode="raw", mode="w"):
     """real create session, then the real reader on the header it wrote: names in order, sizes, digests, folder.
     header_mode 'encoded': the header goes through Header._encode_header (encoder stub) and comes back through the
     encoded-header branch of Header._read (decoder stub handing back the same raw header)"""
     n = len(pattern)
-    r = ObResult(bounds="create session of kinds %s, %d stage(s), %s header; the header it writes is read back by the real "
-                        "Header._read/_real_get_contents; sizes/CRCs symbolic" % (pattern or "-", nstages, header_mode))
+    r = ObResult(bounds="create session (mode %r) of kinds %s, %d stage(s), %s header; the header it writes is read back by the real "
+                        "Header._read/_real_get_contents; sizes/CRCs symbolic" % (mode, pattern or "-", nstages, header_mode))
     eng, st = c08.mk_engine()
     sizes = [eng.sym_int("size%d" % i, 40) for i in range(n)]
     names = c07.session_names(n)
 
     def harness(e):
         st.pop("compressors", None)
-        fp, header, comps = c07.run_session(e, st, pattern, sizes, names, header_mode=header_mode)
-        hdr, start, sig = S.header_items(fp)
+        fp, header, comps = c07.run_session(e, st, pattern, sizes, names, header_mode=header_mode, mode=mode)
+        try:
+            hdr, start, sig = S.header_items(fp)
+        except (ValueError, AttributeError, IndexError):
+            return dict(exc="close() wrote no header at all (mode %r)" % mode)
         data_len = e.binop(ast.Sub(), start, 32)
         rec = {}
         if header_mode != "raw":
@@ -647,18 +650,18 @@ def session_roundtrip(pattern, nstages=1, header_mode="raw"):
 
     decide(eng, harness, post, {"size%d" % i: s for i, s in enumerate(sizes)}, r,
            describe=lambda o: o.get("exc") or "%d members read back" % len(o["files"]))
-    if header_mode == "raw":
+    if header_mode == "raw" and mode == "w":
         _cex(r, "session_roundtrip", lambda w: dict(module="vf.props.c07", func="replay_session", kwargs={
             "pattern": pattern, "sizes": [min(w["size%d" % i], 70000) for i in range(n)], "names": names}),
              signature=lambda w: {"obligation": "session_roundtrip"})
     else:
         _cex(r, "session_roundtrip", lambda w: dict(module="vf.props.c01", func="replay_roundtrip", kwargs={
-            "pattern": pattern, "sizes": [min(w["size%d" % i], 70000) for i in range(n)], "names": names, "header_mode": header_mode}),
-             signature=lambda w: {"obligation": "session_roundtrip", "header": header_mode})
+            "pattern": pattern, "sizes": [min(w["size%d" % i], 70000) for i in range(n)], "names": names, "header_mode": header_mode,
+            "mode": mode}), signature=lambda w: {"obligation": "session_roundtrip", "header": header_mode, "mode": mode})
     return r
 
 
-def replay_roundtrip(pattern, sizes, names, header_mode):
+def replay_roundtrip(pattern, sizes, names, header_mode, mode="w"):
     """write with the real library (default filters, encoded or encrypted header) and read back with it"""
     import os
     import shutil
@@ -671,7 +674,9 @@ def replay_roundtrip(pattern, sizes, names, header_mode):
     try:
         buf = io.BytesIO()
         pw = "pw" if header_mode == "encrypted" else None
-        z = py7zr.SevenZipFile(buf, "w", password=pw, header_encryption=(header_mode == "encrypted"))
+        z = py7zr.SevenZipFile(buf, mode, password=pw, header_encryption=(header_mode == "encrypted"))
+        if header_mode == "raw":
+            z.set_encoded_header_mode(False)
         expect = {}
         for i, k in enumerate(pattern):
             data = bytes((i + j) & 0xFF for j in range(sizes[i]))
@@ -721,6 +726,8 @@ def units(tier):
                        dict(k=k, honour=hon, nstages=ns), 1800))
     for p in (["s", "ss", "sds", "lsf", ""] if tier == "quick" else ["s", "ss", "sds", "lsf", "", "ssss", "dsd", "fdl"]):
         us.append(Unit("4.session_roundtrip[%s]" % (p or "empty"), M, "session_roundtrip", dict(pattern=p), 900))
+    for p in (["s", ""] if tier == "quick" else ["s", "", "sd"]):
+        us.append(Unit("4.session_roundtrip[%s,mode x]" % (p or "empty"), M, "session_roundtrip", dict(pattern=p, mode="x"), 900))
     for p in (["s", "sd"] if tier == "quick" else ["s", "sd", "ss", "lsf", ""]):
         us.append(Unit("4.session_roundtrip[%s,encoded header]" % (p or "empty"), M, "session_roundtrip", dict(pattern=p, header_mode="encoded"), 900))
     us += [Unit("5.names." + u.name, u.module, u.func, u.kwargs, u.timeout) for u in c17.units(tier) if u.name.startswith("d.utf16")]
